@@ -5,6 +5,7 @@ import (
 	"fmt"
 	"io"
 	"net"
+	"slices"
 )
 
 var (
@@ -106,6 +107,58 @@ func readRecord(conn net.Conn) ([]byte, error) {
 		err = io.EOF
 	}
 	return record[:n+nn], err
+}
+
+// The longest handshake message accepted. This is the limit crypto/tls uses for
+// a ClientHello.
+const maxHandshakeLength = 65536
+
+// readHandshakeMessage completes the handshake message that starts in
+// record when it continues in the following records (RFC 8446, Section
+// 5.1). It returns a record-like buffer, i.e. the header of the first record
+// followed by the whole message, and the records as they were received.
+func readHandshakeMessage(conn net.Conn, record []byte) (msg, raw []byte, err error) {
+	msg, raw = record, record
+	for msg[0] == 22 {
+		if len(msg) >= 9 {
+			length := int(msg[6])<<16 | int(msg[7])<<8 | int(msg[8])
+			if length > maxHandshakeLength {
+				return msg, raw, fmt.Errorf("%w: handshake message length %d > %d", ErrDecodeError, length, maxHandshakeLength)
+			}
+			if len(msg)-9 >= length {
+				break
+			}
+		}
+		next, err := readRecord(conn)
+		if err != nil {
+			return msg, raw, err
+		}
+		if next[0] != 22 {
+			return msg, raw, fmt.Errorf("%w: content type %d in the middle of a handshake message", ErrUnexpectedMessage, next[0])
+		}
+		if len(next) == 5 {
+			// Zero-length fragments of handshake messages are not allowed.
+			return msg, raw, fmt.Errorf("%w: empty handshake fragment", ErrDecodeError)
+		}
+		if len(raw) == len(record) {
+			msg, raw = slices.Clone(record), slices.Clone(record)
+		}
+		msg = append(msg, next[5:]...)
+		raw = append(raw, next...)
+	}
+	return msg, raw, nil
+}
+
+// frameHandshakeMessage splits a handshake message into records.
+func frameHandshakeMessage(version uint16, msg []byte) []byte {
+	var out []byte
+	for len(msg) > 0 {
+		n := min(len(msg), 16384)
+		out = append(out, 0x16, byte(version>>8), byte(version), byte(n>>8), byte(n))
+		out = append(out, msg[:n]...)
+		msg = msg[n:]
+	}
+	return out
 }
 
 func convertErrorsToAlerts(conn net.Conn, err error) {
